@@ -30,7 +30,7 @@ CLAIMED = {
               "induction over the word loops; register update/read and user_regs round trips over tables regenerated from the source. Tie: real reads and "
               "writes on a debuggee with holes, PROT_NONE and read-only pages, decided in Coq against /proc/<pid>/mem snapshots; registers against PTRACE_GETREGS."),
         ref="DESIGN.md section 5 C15",
-        technique="Coq proof (induction over the peek/poke word loops) + translator for register tables + end-to-end differential correspondence evaluated by vm_compute",
+        technique="Coq proof (induction over the peek/poke word loops) + translator (register tables; arithmetic skeletons of the write_bytes and read_memory_by_pid loops, proved equal to the model for every input in Ties/MemTie.v) + end-to-end differential correspondence evaluated by vm_compute",
         note=TB + " ptrace word semantics (8 bytes, EIO unless all mapped) and page-granular mappings are assumed; disassembly masking and DAP setVariable are not yet in the model."),
     "C05": dict(
         text=("Theorems (Coq, any stack depth below the cap, any CFI supplied as functions): the unwinder's loop returns the complete chain of return "
